@@ -184,6 +184,25 @@ theorem inv_step {s s' : Sys} {c : Call} {oids : List V} {r : Reply} (hi : SysIn
     (e : Sys.step sch s c oids = .ok (s', r)) : SysInv sch s' :=
   (SysGood.step (uq := false) (good_false_iff.mpr hi) e).1
 
+/-- one driver call executed on ANY transaction (a fresh one over the committed catalog, or a
+    session's open transaction) preserves the invariant of the transaction's catalog -/
+theorem inv_runCall {t t' : Txn} {nu nu' : Nu} {c : Call} {r : Reply}
+    (hi : Inv sch t.catalog nu.nextId) (e : runCall sch t nu c = .ok (t', nu', r)) :
+    Inv sch t'.catalog nu'.nextId ∧ nu.nextId ≤ nu'.nextId :=
+  let g := Good.runCall (uq := false) (good_false_iff.mpr hi) e; ⟨g.1.1, g.2⟩
+
+theorem sgood_false_iff {s : SSys} : SGood sch false s ↔ SSysInv sch s :=
+  ⟨fun g => ⟨g.1.1, fun k st t hm ht => (g.2 k st t hm ht).1⟩,
+   fun i => ⟨good_false_iff.mpr i.1, fun k st t hm ht => good_false_iff.mpr (i.2 k st t hm ht)⟩⟩
+
+theorem inv_sinit : SSysInv sch SSys.init := sgood_false_iff.mp SGood.init
+
+/-- sessions and multi-call transactions (start / commit / abort / endSession / calls inside and
+    outside a transaction, blocked and failed calls included): the committed catalog and every open
+    session transaction stay coherent -/
+theorem inv_sstep {s : SSys} (hi : SSysInv sch s) (c : SCall) : SSysInv sch (s.step sch c).1 :=
+  sgood_false_iff.mp ((sgood_false_iff.mpr hi).step c)
+
 /-- induction over call lists: after ANY history of calls (failed ones included) from the empty
     database, every index of every collection holds exactly the collection's documents. -/
 theorem inv_run (calls : List (Call × List V)) : SysInv sch (Sys.run sch Sys.init calls) :=
